@@ -75,22 +75,47 @@ def run(ctx):
         fam = lib.family(F, mg.path)
         plain = [(b.path, x) for b in fam for x, t in b.calls() if x in b.normal_blocks() and call_matches(t, ['re:Options::write_metadata(_file)?$'])]
         ctx.ob('5f no-versionless-metadata-write', 'K4-confinement', mg.path, 'migrate does not write metadata through the variants that stamp CURRENT_VERSION', not plain, str(plain))
-        wv = [x for x, t in mg.calls() if x in mg.normal_blocks() and call_matches(t, ['re:Options::write_metadata(_file)?_with_version$'])]
-        ctx.ob('5g0 versioned-metadata-writes', 'anchor', mg.path, 'migrate writes the destination metadata and, in place, the source metadata with an explicit version', len(wv) >= 2, str(wv))
-        for i, x in enumerate(wv):
-            t = mg.term(x)
+        WV = ['re:Options::write_metadata(_file)?_with_version$']
+        def is_source_version(fb, pl, depth=2):
+            """the place holds a version read from a Metadata - directly, or through a helper parameter that every caller in the family
+            fills with one"""
+            sl = backward_slice(fb, [pl])
+            if '.Metadata.version' in sl.fields:
+                return True
+            if depth <= 0 or not sl.params or fb is mg:
+                return False
+            callers = [(cb, x) for cb in fam for x in cb.call_sites(fb.path)]
+            if not callers:
+                return False
+            for prm in sl.params:
+                for cb, x in callers:
+                    a = cb.term(x)['a']
+                    if prm - 1 >= len(a) or op_place(a[prm - 1]) is None or not is_source_version(cb, op_place(a[prm - 1]), depth - 1):
+                        return False
+            return True
+        wv = [(fb, x) for fb in fam for x, t in fb.calls() if x in fb.normal_blocks() and call_matches(t, WV)]
+        ctx.ob('5g0 versioned-metadata-writes', 'anchor', mg.path, 'migrate (or a helper of it) writes the destination metadata and, in place, the source metadata with an explicit version', len(wv) >= 2, str([(fb.path, x) for fb, x in wv]))
+        for i, (fb, x) in enumerate(wv):
+            t = fb.term(x)
             v = t['a'][3] if len(t['a']) > 3 else None
-            ok = v is not None and op_place(v) is not None and '.Metadata.version' in backward_slice(mg, [op_place(v)]).fields
-            ctx.ob('5g metadata-written-with-source-version #%d' % i, 'K4-provenance', mg.path, 'the version written is the version read from the source metadata', ok,
-                   '' if ok else 'the version argument does not come from Metadata.version', mg.loc(x))
-        cmpv = []
-        for bi in mg.normal_blocks():
-            for st_ in mg.blocks[bi]['s']:
-                if st_['k'] == 'assign' and st_['r']['k'] == 'bin' and st_['r']['op'] in ('Eq', 'Ne'):
-                    pls = [op_place(a) for a in st_['r']['a'] if op_place(a) is not None]
-                    if pls and all('.Metadata.version' in backward_slice(mg, [pl]).fields for pl in pls) and len(pls) == 2:
-                        cmpv.append(bi)
-        lib.precedes(ctx, '5h destination-version-settled-before-open', mg, wv + cmpv, oc,
+            ok = v is not None and op_place(v) is not None and is_source_version(fb, op_place(v))
+            ctx.ob('5g metadata-written-with-source-version #%d' % i, 'K4-provenance', fb.path, 'the version written is the version read from the source metadata', ok,
+                   '' if ok else 'the version argument does not come from Metadata.version', fb.loc(x))
+        def version_compares(fb):
+            out = []
+            for bi in fb.normal_blocks():
+                for st_ in fb.blocks[bi]['s']:
+                    if st_['k'] == 'assign' and st_['r']['k'] == 'bin' and st_['r']['op'] in ('Eq', 'Ne'):
+                        pls = [op_place(a) for a in st_['r']['a'] if op_place(a) is not None]
+                        if len(pls) == 2 and all(is_source_version(fb, pl) for pl in pls):
+                            out.append(bi)
+            return out
+        settled = lib.sites_reaching(mg, WV) + version_compares(mg)
+        # a helper that compares the versions (and writes the metadata when there is none) settles it at its call site
+        for fb in fam:
+            if fb is not mg and fb.kind != 'Closure' and version_compares(fb):
+                settled += mg.call_sites(fb.path)
+        lib.precedes(ctx, '5h destination-version-settled-before-open', mg, sorted(set(settled)), oc,
                      'before the destination is opened (which would create it with CURRENT_VERSION) its metadata was written with the source version, or its existing version was compared with it')
     if mg:
         ins = [bi for bi, t in mg.calls() if call_matches(t, ['re:BTreeSet.*::insert$', 're:BTreeSet.*Extend<.*>>::extend$', 're:BTreeSet.*::extend$', 're:BTreeSet.*::append$']) and bi in mg.normal_blocks()]
